@@ -602,6 +602,13 @@ func runCombined(seed uint64, n int, out *Out) {
 			w.finish(err, pan, "subWithdrawUnlocked")
 		}
 		nOps := 25 + r.Intn(maxOps)
+		// the last successful subaccount house withdrawal: repeated withdrawals from ONE participation (MaxWithdrawalCount > 1)
+		var lastSX struct {
+			ok    bool
+			m     *coreMarket
+			idx   uint64
+			owner int
+		}
 		for opi := 0; opi < nOps && !halted; opi++ {
 			c := r.Intn(100)
 			if c >= 4 && c < 10 && opi*2 < nOps && r.Chance(70) {
@@ -868,8 +875,16 @@ func runCombined(seed uint64, n int, out *Out) {
 						}
 					}
 				}
+				repeatSX := false
+				if lastSX.ok && r.Chance(45) {
+					// once more from the participation that was withdrawn from before, a small partial amount
+					m, idx, owner, mode = lastSX.m, lastSX.idx, lastSX.owner, 2
+					amount = r.Pick([]int64{1, 2, 5, 10, 25})
+					repeatSX = true
+					out.Count("op.subWithdraw.repeat-same-participation")
+				}
 				pd := 0
-				if r.Chance(8) {
+				if r.Chance(8) && !repeatSX {
 					pd = int(r.Pick([]int64{int64(owner), 7}))
 				}
 				kycWho := owner
@@ -893,6 +908,12 @@ func runCombined(seed uint64, n int, out *Out) {
 					_, err := ss.HouseWithdraw(sdk.WrapSDKContext(ctx), msg)
 					return err
 				})
+				if err == nil {
+					lastSX.ok, lastSX.m, lastSX.idx, lastSX.owner = true, m, idx, owner
+					if repeatSX {
+						out.Count("op.subWithdraw.repeat-same-participation.ok")
+					}
+				}
 				w.finish(err, pan, "subWithdraw")
 			case c < 80:
 				// ---- direct wager by a user without subaccount
